@@ -33,6 +33,7 @@ func (x *Exec) script(q *Query, quant bool, z3 bool, model bool) string {
 	} else {
 		b.WriteString("(set-option :produce-models true)\n(set-logic ALL)\n")
 	}
+	spec := x.specText(quant) // may register sorts: before the prelude is printed
 	b.WriteString(x.w.Prelude(quant))
 	b.WriteString(codecPrelude(quant))
 	b.WriteString(derPrelude(quant))
@@ -40,7 +41,7 @@ func (x *Exec) script(q *Query, quant bool, z3 bool, model bool) string {
 	if quant {
 		b.WriteString(cryptoPreludeQ())
 	}
-	for _, sp := range x.specText(quant) {
+	for _, sp := range spec {
 		b.WriteString(sp)
 	}
 	for _, d := range q.Decls {
